@@ -45,6 +45,9 @@
     m <operation of Driver.C11>          insert_row(_with), insert_column(_with), remove_row,
                                          remove_column, retain_mut … with valid or invalid arguments
         → <ok|panic> <R>x<C> len=<stored> use=<items of a walk over the matrix left behind>
+    @ pnew <R>x<C>                       the same with an element type whose Clone panics on demand
+    p insert_row|insert_column <i> <v> <p|->   the call, `Clone::clone` panicking on its p-th call
+        → as for `m`
         → ok <rows>x<cols> len=<stored> use=<items of a row-major walk> | panic
 
   The part before `##` is what the property speaks about (outcome, and the object being
@@ -291,6 +294,31 @@ def step (s : State) (toks : List String) : State × String :=
       | some m => (⟨none, some m⟩, s!"ok {showMatrixState m}")
       | none => (⟨none, none⟩, "panic ## kind=explicit")
     | none => (⟨none, none⟩, "bad-op")
+  | ["@", "pnew", sz] =>
+    -- the same matrix with an element type whose `Clone` can be made to panic
+    match Driver.C11.parseSize sz with
+    | some (r, c) =>
+      match Matrix.fromFlatRowMajor r c (List.range' 1 (r * c)) with
+      | some m => (⟨none, some m⟩, s!"ok {showMatrixState m}")
+      | none => (⟨none, none⟩, "panic ## kind=explicit")
+    | none => (⟨none, none⟩, "bad-op")
+  | ["p", op, i, v, p] =>
+    match s.m, i.toNat?, v.toNat?, parsePanicAt p with
+    | none, some _, some _, some _ => (s, "no-matrix")
+    | some m, some i, some v, some p =>
+      let res? : Option (Matrix.Res Nat) :=
+        if op = "insert_row" then some (insertRowCloning m i v p)
+        else if op = "insert_column" then some (insertColumnCloning m i v p)
+        else none
+      match res? with
+      | none => (s, "bad-op")
+      | some res =>
+        let out := if res.panic.isSome then "panic" else "ok"
+        let kind := match res.panic with
+          | none => ""
+          | some k => s!" ## kind={k}"
+        ({ s with m := some res.state }, s!"{out} {showMatrixState res.state}{kind}")
+    | _, _, _, _ => (s, "bad-op")
   | "m" :: rest =>
     -- the C11 model of the resizing operations: the matrix left behind, also after a panic
     match s.m, Driver.C11.parseOp rest with
